@@ -23,6 +23,7 @@ import (
 	"sync"
 	"time"
 
+	"github.com/nspcc-dev/locode-db/pkg/locodedb"
 	"github.com/nspcc-dev/neo-go/pkg/crypto/keys"
 	"github.com/nspcc-dev/neo-go/pkg/util"
 	"github.com/nspcc-dev/neo-go/pkg/vm/stackitem"
@@ -300,6 +301,138 @@ var (
 	classes = map[string]int{}
 )
 
+// ---------------- Part C: LOCODE-derived attributes against the LOCODE database ----------------
+
+// the six attributes a candidate with UN-LOCODE must expand, in the validator's vocabulary
+var locAttrs = []string{"CountryCode", "Country", "Location", "Continent", "SubDivCode", "SubDiv"}
+
+type locRecord struct {
+	Locode string
+	Want   [6]string // what the LOCODE DB derives (reference data, read with locodedb.Get, not through the validator)
+	Shape  string
+}
+
+// candidate locations probed in the embedded DB; every shape of record that occurs among them is used
+var locCandidates = []string{"RU MOW", "DE BER", "US NYC", "FI HEL", "JP TYO", "SG SIN", "LU LUX", "NL AMS", "HK HKG", "IS REY",
+	"MC MON", "MT MLA", "AQ MCM", "GI GIB", "VA VAT", "FR PAR", "GB LON", "AU SYD", "BR RIO", "ZA CPT", "CN SHA", "IN BOM", "AE DXB", "GL GOH"}
+
+func locRecords() ([]locRecord, error) {
+	var rs []locRecord
+	perShape := map[string]int{}
+	for _, lc := range locCandidates {
+		rec, err := locodedb.Get(lc)
+		if err != nil {
+			continue
+		}
+		w := [6]string{lc[:2], rec.Country, rec.Location, rec.Cont.String(), rec.SubDivCode, rec.SubDivName}
+		shape := ""
+		for i, v := range w {
+			if v == "" {
+				shape += "-no" + locAttrs[i]
+			}
+		}
+		if rec.Cont == locodedb.ContinentUnknown {
+			shape += "-unknownContinent"
+		}
+		if shape == "" {
+			shape = "full"
+		}
+		if perShape[shape] >= 2 {
+			continue
+		}
+		perShape[shape]++
+		rs = append(rs, locRecord{lc, w, shape})
+	}
+	if perShape["full"] == 0 || perShape["-noSubDivCode-noSubDiv"] == 0 {
+		return nil, fmt.Errorf("LOCODE DB shapes found among the candidates: %v (need records with and without subdivision)", perShape)
+	}
+	return rs, nil
+}
+
+// ccase: Decl[i] = 0 attribute absent, 1 declared with the DB value, 2 declared with another value
+// (for an attribute whose DB value is empty only 0 and 2 exist: 2 = "present while the DB derives nothing").
+type ccase struct {
+	Rec  int
+	Decl [6]int
+	Cfg  int
+}
+
+func checkC(r *ev.Run, aw *aworld, recs []locRecord, c ccase) {
+	w := aw.w
+	rec := recs[c.Rec]
+	_, k := irworld.Node("plain")
+	attrs := [][2]string{{"Capacity", "100"}, {"UN-LOCODE", rec.Locode}}
+	var wrong, missing []string
+	for i, d := range c.Decl {
+		switch d {
+		case 1:
+			attrs = append(attrs, [2]string{locAttrs[i], rec.Want[i]})
+		case 2:
+			attrs = append(attrs, [2]string{locAttrs[i], rec.Want[i] + "X"})
+			if rec.Want[i] == "" {
+				wrong = append(wrong, locAttrs[i]+":declared-while-db-empty")
+			} else {
+				wrong = append(wrong, locAttrs[i]+":differs")
+			}
+		case 0:
+			if rec.Want[i] != "" {
+				missing = append(missing, locAttrs[i])
+			}
+		}
+	}
+	m := stackitem.NewMap()
+	for _, a := range attrs {
+		m.Add(stackitem.NewByteArray([]byte(a[0])), stackitem.NewByteArray([]byte(a[1])))
+	}
+	item := stackitem.NewStruct([]stackitem.Item{stackitem.NewArray([]stackitem.Item{stackitem.NewByteArray([]byte("/dns4/sn.example/tcp/8080"))}),
+		m, stackitem.NewByteArray(k.PublicKey().Bytes()), stackitem.NewBigInteger(big.NewInt(1))})
+	setMember(w, true)
+	w.Lock(func(t *irworld.Tables) { t.ValidScript, t.ValidScriptErr = true, nil })
+	aw.nonce++
+	nr := w.Request(irworld.Script(irworld.CallSpec{Contract: w.Netmap, Method: "addNode", Args: []any{item}}), irworld.NROpt{Invoker: true, Nonce: aw.nonce})
+	w.Notary(nr)
+	approved := false
+	for _, x := range w.TakeCalls() {
+		if x.Method == "NotarySignAndInvokeTX" && x.TxHash == nr.MainTransaction.Hash().StringLE() {
+			approved = true
+		}
+	}
+	r.Eval(1)
+	verdict := "all-declared-equal-db"
+	switch {
+	case len(wrong) > 0:
+		verdict = "declares-wrong"
+	case len(missing) > 0:
+		verdict = "omits-derived-attribute"
+	}
+	classMu.Lock()
+	classes[fmt.Sprintf("locode/%s/%s/approved=%v", rec.Shape, verdict, approved)]++
+	classMu.Unlock()
+	if len(wrong) <= 1 && len(missing) == 0 {
+		r.Nontrivial(fmt.Sprintf("C:%s/%v", rec.Locode, c.Decl))
+	}
+	desc := fmt.Sprintf("UN-LOCODE=%q (db: %v) declared=%v cfg=%s", rec.Locode, rec.Want, attrs[2:], cfgMenu[c.Cfg])
+	switch {
+	case approved && len(wrong) > 0:
+		sort.Strings(wrong)
+		kinds := map[string]bool{}
+		for _, x := range wrong {
+			kinds[x] = true
+		}
+		var ks []string
+		for x := range kinds {
+			ks = append(ks, x)
+		}
+		sort.Strings(ks)
+		r.Violation("locode-admitted-with-wrong-derived-attribute/record="+rec.Shape+"/"+strings.Join(ks, "+"), "admitted: "+desc, c)
+	case !approved && len(wrong) == 0 && len(missing) == 0:
+		r.Violation("locode-refused-although-all-derived-attributes-match/record="+rec.Shape, "refused: "+desc, c)
+	}
+	if approved && rec.Shape != "full" && r.WantSample() {
+		r.Sample(map[string]any{"part": "locode", "locode": rec.Locode, "db": rec.Want, "declared": attrs[2:], "approved": approved})
+	}
+}
+
 // ---------------- Part B ----------------
 
 var opNames = []string{"NewEpoch+1", "NewEpoch=", "NewEpoch+2", "NewEpoch-1", "NewEpoch+1/unknown-tx-height", "block@deadline", "block-early", "flip-membership"}
@@ -502,7 +635,19 @@ func main() {
 	if r.Replay != "" {
 		var raw map[string]any
 		r.LoadReplay(&raw)
-		if _, ok := raw["Ops"]; ok {
+		if _, ok := raw["Decl"]; ok {
+			var c ccase
+			r.LoadReplay(&c)
+			recs, err := locRecords()
+			if err != nil {
+				r.Fatal("%v", err)
+			}
+			aw, err := newAWorld("replay", cfgMenu[c.Cfg] == "external")
+			if err != nil {
+				r.Fatal("%v", err)
+			}
+			checkC(r, aw, recs, c)
+		} else if _, ok := raw["Ops"]; ok {
 			var c bcase
 			r.LoadReplay(&c)
 			aw, err := newAWorld("replay", false)
@@ -565,6 +710,58 @@ func main() {
 	})
 
 	r.Set("part_a_wall_s", time.Since(t0).Seconds())
+	// ---- Part C ----
+	recs, err := locRecords()
+	if err != nil {
+		r.Fatal("%v", err)
+	}
+	var ccases []ccase
+	for ri, rec := range recs {
+		var sizes []int
+		for _, v := range rec.Want {
+			if v == "" {
+				sizes = append(sizes, 2)
+			} else {
+				sizes = append(sizes, 3)
+			}
+		}
+		enumx.Product(sizes, func(i []int) bool {
+			var d [6]int
+			for k, v := range i {
+				d[k] = v
+				if rec.Want[k] == "" && v == 1 {
+					d[k] = 2
+				}
+			}
+			for cfg := range cfgMenu {
+				ccases = append(ccases, ccase{ri, d, cfg})
+			}
+			return true
+		})
+	}
+	enumx.Parallel(shards, func(s int) {
+		ws := map[int]*aworld{}
+		for i := s; i < len(ccases); i += shards {
+			if r.Expired() {
+				exhaustive = false
+				break
+			}
+			c := ccases[i]
+			if ws[c.Cfg] == nil {
+				aw, err := newAWorld(fmt.Sprintf("C/%d/%d", s, c.Cfg), cfgMenu[c.Cfg] == "external")
+				if err != nil {
+					r.Fatal("world: %v", err)
+				}
+				ws[c.Cfg] = aw
+			}
+			checkC(r, ws[c.Cfg], recs, c)
+		}
+		for _, aw := range ws {
+			aw.w.Close()
+		}
+	})
+	r.Set("locode_cases", len(ccases))
+	r.Set("locode_records", recs)
 	// ---- Part B ----
 	// quick: length <= 4, at most one fault letter per history; thorough: length <= 5 over all letters plus
 	// length 6 over the 8 fault-free letters
@@ -628,9 +825,10 @@ func main() {
 	r.Set("epoch_histories", len(bcases))
 	r.Set("epoch_history_depth", depth)
 	r.Set("epoch_history_letters", opNames)
-	r.Rule("A: full product key{plain,NNS-listed,malformed} x endpoints{ok,ok-tls,udp,garbage,unreachable,lying,none,ok+udp} x state{online,maintenance,offline,unknown} x LOCODE{none,good,wrong country,unknown} x verified domain{none,listed domain,other} x external verdict{accept,reject} x external validator configured{no,yes} x chain verdict on script{valid,invalid,error,valid+error} in member state (+ the valid-script half again for a non-member); non-trivial = member, valid tx, and at most one validator rejects. B: every operation history over 8 fault-free letters + one letter 'NewEpoch+1 while the k-th read R of its handling fails' per faultable read the real handler performs (learnt through the hook: epoch duration x2, tx height, block header, netmap snapshot), from member and non-member start; quick: length 1..4 with at most one fault letter; thorough: length 1..5 over all letters and length 6 over the fault-free ones; non-trivial = distinct history prefix ending in a timer fire answered by a tick")
+	r.Rule("A: full product key{plain,NNS-listed,malformed} x endpoints{ok,ok-tls,udp,garbage,unreachable,lying,none,ok+udp} x state{online,maintenance,offline,unknown} x LOCODE{none,good,wrong country,unknown} x verified domain{none,listed domain,other} x external verdict{accept,reject} x external validator configured{no,yes} x chain verdict on script{valid,invalid,error,valid+error} in member state (+ the valid-script half again for a non-member); non-trivial = member, valid tx, and at most one validator rejects. C: for every LOCODE DB record shape found among 24 probed locations (at most 2 records per shape; shapes with and without subdivision required) every declaration vector of the six derived attributes {absent, DB value, other value} (an attribute the DB leaves empty: {absent, declared}) x external validator configured{no,yes}, otherwise flawless candidate; non-trivial = at most one wrong attribute and none omitted. B: every operation history over 8 fault-free letters + one letter 'NewEpoch+1 while the k-th read R of its handling fails' per faultable read the real handler performs (learnt through the hook: epoch duration x2, tx height, block header, netmap snapshot), from member and non-member start; quick: length 1..4 with at most one fault letter; thorough: length 1..5 over all letters and length 6 over the fault-free ones; non-trivial = distinct history prefix ending in a timer fire answered by a tick")
 	r.Exhaustive(exhaustive)
-	r.Assume("the availability validator's dial, the external validator's HTTP call and the NNS read are environment: answered as pure functions of the descriptor",
+	r.Assume("C: reference = the LOCODE DB record read with locodedb.Get: a candidate declaring any derived attribute different from the DB (or declaring one the DB leaves empty) must be refused, a candidate declaring exactly the DB values must be admitted; candidates that merely omit a derived attribute are executed and counted but not judged",
+		"the availability validator's dial, the external validator's HTTP call and the NNS read are environment: answered as pure functions of the descriptor",
 		"the per-validator verdict used by the oracle is the verdict of that validator's own Verify called alone on the descriptor (the composition and the wiring are under test, not each validator's rules)",
 		"a malformed public key argument makes the request transaction invalid",
 		"B: between histories the server is re-initialised by its own RPC-reconnection routine (restartFSChain); the harness checks epoch counter and timer state equal the initial ones",
